@@ -268,3 +268,24 @@ pub fn vmrun(rest: &str) -> String {
         Err(e) => format!("rterr {} {} g0={}", e.line, wire::hex(e.msg.as_bytes()), g0),
     }
 }
+
+/// `core <hex src>`: main code bytes, constants, the defined globals after the run and the last popped value —
+/// compared byte-for-byte with the functional compiler model of the core fragment (lean/P2sh/Core)
+pub fn core(rest: &str) -> String {
+    let Some(src) = src_of(rest) else { return "bad-op".into() };
+    let c = match compile_src(&src) {
+        Err(e) => return e,
+        Ok(c) => c,
+    };
+    let n = c.symtab.get_num_definitions();
+    let bc = c.bytecode();
+    let code = nums(&bc.instructions.code);
+    let consts: Vec<String> = bc.constants.iter().map(|o| dump_const(o)).collect();
+    let mut vm = VM::new(bc);
+    let r = vm.run();
+    let gs: Vec<String> = (0..n).map(|i| wire::enc(&vm.globals[i])).collect();
+    match r {
+        Ok(()) => format!("code=[{}] consts=[{}] ok g=[{}] last={} sp={}", code, consts.join("|"), gs.join(","), wire::enc(&vm.last_popped()), vm.verif_sp()),
+        Err(e) => format!("code=[{}] consts=[{}] rterr {}", code, consts.join("|"), e.line),
+    }
+}
